@@ -325,6 +325,9 @@ func Run(c *common.Ctx) error {
 	if err := haltLockAcrossFailover(c, c.Rng.Fork()); err != nil {
 		return err
 	}
+	if err := importInFlightAtDemotion(c, c.Rng.Fork()); err != nil {
+		return err
+	}
 	for i := 0; i < c.Pick(2, 6); i++ {
 		if err := haltReleaseWithoutPrimary(c, c.Rng.Fork(), i); err != nil {
 			return err
@@ -1226,6 +1229,102 @@ func haltLockAcrossFailover(c *common.Ctx, r *common.Rand) error {
 			c.Violate("C07:halt-failover:"+hnd, fmt.Sprintf("%s on the former holder answered errno %d; database %+v -> %+v", hnd, errno, before, after), rep)
 			return nil
 		}
+	}
+	return nil
+}
+
+// gatedReader delivers the first half of its bytes, then waits until it is let go.
+type gatedReader struct {
+	b       []byte
+	off     int
+	reached chan struct{}
+	goOn    chan struct{}
+	once    bool
+}
+
+func (g *gatedReader) Read(p []byte) (int, error) {
+	if g.off >= len(g.b)/2 && !g.once {
+		g.once = true
+		close(g.reached)
+		select {
+		case <-g.goOn:
+		case <-time.After(10 * time.Second):
+		}
+	}
+	if g.off >= len(g.b) {
+		return 0, io.EOF
+	}
+	n := copy(p, g.b[g.off:min(len(g.b), g.off+256)])
+	g.off += n
+	return n, nil
+}
+
+// importInFlightAtDemotion: an import is reading its (slow) upload when the node loses the primary role. What it
+// publishes it would publish on a node without write authority: the import fails, position and log stay what they were.
+func importInFlightAtDemotion(c *common.Ctx, r *common.Rand) error {
+	dir, err := os.MkdirTemp(c.OutDir, "c07i-")
+	if err != nil {
+		return err
+	}
+	defer os.RemoveAll(dir)
+	clu := cluster.New(dir, 2*time.Second)
+	defer clu.Close()
+	clu.Opts = func(name string, s *litefs.Store) { s.DemoteDelay = 1500 * time.Millisecond }
+	p, err := clu.Start("p", true)
+	if err != nil {
+		return err
+	}
+	if clu.WaitPrimary(5*time.Second) == nil {
+		return fmt.Errorf("no primary")
+	}
+	const ps = 512
+	h := hist.NewOn(c, r.Fork(), hist.Config{PageSize: ps}, p.Store, p.Exits, "db", nil, 0, false)
+	if err := commitN(h, 2, false); err != nil {
+		return err
+	}
+	db := p.Store.DB("db")
+	var img []byte
+	for pg := uint32(1); pg <= 6; pg++ {
+		img = append(img, lfs.MakePage(ps, pg, 430000+uint64(pg), 6, false)...)
+	}
+	gr := &gatedReader{b: img, reached: make(chan struct{}), goOn: make(chan struct{})}
+	before := snapshot(p, "db")
+	done := make(chan error, 1)
+	go func() { done <- db.Import(p.Store.PrimaryCtx(ctx), gr) }()
+	select {
+	case <-gr.reached:
+	case <-time.After(5 * time.Second):
+		close(gr.goOn)
+		c.Count("import_in_flight_not_reached", 1)
+		return nil
+	}
+	p.Store.Demote()
+	deadline := time.Now().Add(2 * time.Second)
+	for p.Store.IsPrimary() && time.Now().Before(deadline) {
+		time.Sleep(time.Millisecond)
+	}
+	lost := !p.Store.IsPrimary()
+	close(gr.goOn)
+	var ierr error
+	select {
+	case ierr = <-done:
+	case <-time.After(8 * time.Second):
+		ierr = fmt.Errorf("the import did not return within 8 s")
+	}
+	c.Evaluations++
+	c.Distinct("import-in-flight-at-demotion")
+	if !lost {
+		c.Count("import_in_flight_demotion_not_effective", 1)
+		return nil
+	}
+	after := snapshot(p, "db")
+	rep := map[string]any{"kind": "readonly-import-in-flight", "import_error": fmt.Sprint(ierr)}
+	if after.txid != before.txid || after.chk != before.chk || after.ltx != before.ltx || after.hash != before.hash {
+		c.Violate("C07:import-in-flight:published", fmt.Sprintf("the node lost the primary role while an import was reading its upload; the import answered %v and the database went from %+v to %+v", ierr, before, after), rep)
+		return nil
+	}
+	if ierr == nil {
+		c.Violate("C07:import-in-flight:accepted", "an import that finished on a node that had lost the primary role reported success", rep)
 	}
 	return nil
 }
